@@ -455,8 +455,10 @@ def run_churn(k):
     if k % 2:
         env["OVNI_TMPDIR"] = os.path.join(wd, "tmp")
     try:
-        r = core.run_retry([_CTX["churn"], str(rounds), str(grp), str(nev)] + (["overlap"] if k % 4 >= 2 else []),
-                           env=env, cwd=wd, timeout=300)
+        argv = [_CTX["churn"], str(rounds), str(grp), str(nev)] + (["overlap"] if k % 4 >= 2 else [])
+        if k % 3 == 0:
+            argv = ["sh", "-c", 'ulimit -n 96 && exec "$@"', "sh"] + argv      # descriptors of finished threads must be given back
+        r = core.run_retry(argv, env=env, cwd=wd, timeout=300)
         if r.timeout:
             out["inconclusive"] = "churn driver timed out"; return out
         if r.sanitizer:
